@@ -136,6 +136,10 @@ STANDALONE = [
     {'new': 'MediaList', 'kw': {'mediaText': 'all'}},
     {'new': 'MediaQuery', 'kw': {'mediaText': 'screen and (min-width: 10px)'}},
     {'new': 'CSSStyleSheet', 'kw': {}},
+    # a query that starts with an expression / an empty query (mediaType setter: mediaquery.py:228-234)
+    {'new': 'MediaQuery', 'kw': {'mediaText': '(min-width: 10px)'}},
+    {'new': 'MediaQuery', 'kw': {'mediaText': '(min-width: 10px) and (max-width: 20px)'}},
+    {'new': 'MediaQuery', 'kw': {}},
     # objects whose literal names differ from the normalised ones (simple escape, hex escape, upper case)
     {'new': 'Property', 'kw': {'name': 'c\\olor', 'value': 'red'}},
     {'new': 'Property', 'kw': {'name': '\\43 OLOR', 'value': 'RED', 'priority': '!IMPORTANT'}},
@@ -237,7 +241,16 @@ class Tracer:
     function that is already active on the same object (recursion) are not traced — the script models a recursive
     call as one opaque step."""
 
-    def __init__(self, selves, files, marks, extents):
+    def __init__(self, selves, files, marks, extents, callmarks=(), entries=None, child_rec=None):
+        # ownership correspondence: a function entered on ANOTHER object directly from a statement of the target
+        # that the script lists as a `call f` site is recorded in `children` (which function, did it raise, the
+        # statement trace of the child's own frames against the child's script)
+        self.callmarks = set(callmarks)
+        self.entries = entries or {}      # (file index, function name, first line) -> member name of a script
+        self.child_rec = child_rec        # (object, member) -> script record of the child or None
+        self.children = []
+        self.child = None                 # tracer of the child call in progress
+        self.awaiting = None              # child event whose way of ending shows in the caller's next event
         self.selves = [id(s) for s in selves]
         self.files = files            # absolute filename -> index
         self.marks = marks
@@ -256,12 +269,19 @@ class Tracer:
     def __call__(self, frame, event, arg):
         if event != 'call' or self.suppress:
             return None
+        if self.child is not None:
+            return self.child(frame, event, arg)
         code = frame.f_code
         fi = self.files.get(code.co_filename)
         if fi is None:
             return None
         loc = frame.f_locals
         s = loc.get('self')
+        if s is not None and id(s) not in self.selves and self.callmarks:
+            back = frame.f_back
+            m = self.last.get(id(back)) if back is not None else None
+            if m in self.callmarks and not self.reads_only(code.co_name):
+                return self.enter_child(frame, s, fi, code, m)
         if s is None or id(s) not in self.selves:
             return None
         if code.co_name in ('<lambda>', '<genexpr>', '<listcomp>', '<dictcomp>', '<setcomp>'):
@@ -279,6 +299,10 @@ class Tracer:
         fid = id(frame)
 
         def local(frame, event, arg, fi=fi, fid=fid, key=key):
+            if self.awaiting is not None:
+                # an exception that leaves the child shows as an 'exception' event at the call line of the caller
+                self.awaiting['raised'] = (event == 'exception')
+                self.awaiting = None
             if event == 'line':
                 lid = fi * 100000 + frame.f_lineno
                 m = self.owner.get(lid)
@@ -292,6 +316,45 @@ class Tracer:
                 self.last.pop(fid, None)
             return local
         return local
+
+
+def _enter_child(self, frame, s, fi, code, m):
+    member = self.entries.get((fi, code.co_name, code.co_firstlineno))
+    rec = self.child_rec(s, member) if (member is not None and self.child_rec) else None
+    ev = {'mark': m, 'obj': s, 'cls': type(s).__name__, 'fn': code.co_name, 'member': member, 'rec': rec,
+          'raised': None, 'trace': None, 'readonly': bool(getattr(s, '_readonly', False))}
+    self.children.append(ev)
+    if rec is None:
+        return None
+    selves = [s]
+    if type(s).__name__ == 'Property':
+        selves.append(s.seqs[1])
+    sub = Tracer(selves, self.files, rec['marks'], rec['extents'])
+    loc = [sub(frame, 'call', None)]
+    self.child = sub
+
+    def wrap(frame, event, arg):
+        if event == 'return':
+            ev['trace'] = sub.trace
+            self.child = None
+            self.awaiting = ev
+        if loc[0] is not None:
+            loc[0] = loc[0](frame, event, arg)
+        return wrap
+    return wrap
+
+
+def _reads_only(name):
+    """functions that a call-site statement may enter on another object without that being a child mutator call:
+    constructors of new objects (argument expressions) and the readers the extractor lists as pure"""
+    from gen import c11_scripts as gen
+    return name in ('__init__', '__new__', '<lambda>', '<genexpr>', '<listcomp>', '<dictcomp>', '<setcomp>') or \
+        name.startswith('_get') or name in gen.PURE_SELF or \
+        name in gen.PURE_METHODS
+
+
+Tracer.enter_child = _enter_child
+Tracer.reads_only = staticmethod(_reads_only)
 
 
 def call_mutator(target, member, args, tracer=None):
